@@ -416,7 +416,7 @@ def node_strings(floats):
 def programs(ctx):
     import props.c15 as P15
     r = ctx.rng("programs")
-    nprog = max(2, int((12 if ctx.quick else 120) * P15.SCALE))
+    nprog = max(2, int((12 if ctx.quick else 80) * P15.SCALE))
     nh, nr = (5, 4) if ctx.quick else (6, 5)
     progs = []
     for i in range(nprog):
